@@ -238,12 +238,54 @@ structure JsArr.WF (a : JsArr) : Prop where
   above : ∀ j, a.len ≤ j → a.st.abs j = none
   plain : PlainBelow a.st a.len
 
-theorem jsSet_abs (a : JsArr) (k : Nat) (v : Val) (j : Nat) :
-    (jsSet a k v).st.abs j = if j = k then some (semPlain v.sem) else a.st.abs j := by
-  unfold jsSet
+/-- a hit of the dense write path is an index below the dense length -/
+theorem setDense_lt (s s' : Indexed) (k : Nat) (v : Val) (h : s.setDense k v = some s') : ∃ n, s.denseLen = some n ∧ k < n := by
+  cases s with
+  | denseI32 l =>
+    simp only [Indexed.setDense] at h
+    split at h
+    · rename_i hk; exact ⟨l.length, rfl, hk⟩
+    · cases h
+  | denseF64 l =>
+    simp only [Indexed.setDense] at h
+    split at h
+    · rename_i hk; exact ⟨l.length, rfl, hk⟩
+    · cases h
+  | denseElement l =>
+    simp only [Indexed.setDense] at h
+    split at h
+    · rename_i hk; exact ⟨l.length, rfl, hk⟩
+    · cases h
+  | sparseElement m => simp [Indexed.setDense] at h
+  | sparseProperty m => simp [Indexed.setDense] at h
+
+/-- whether `a[k] = v` takes effect depends on the abstraction only: the index is below `length`, or `length` is writable -/
+def jsSetAllowed (a : JsArr) (k : Nat) : Bool := decide (k < a.len) || a.lenWritable
+
+theorem jsSet_abs (a : JsArr) (hwf : a.WF) (k : Nat) (v : Val) (j : Nat) :
+    (jsSet a k v).st.abs j = if jsSetAllowed a k then (if j = k then some (semPlain v.sem) else a.st.abs j) else a.st.abs j := by
+  unfold jsSet jsSetAllowed
   cases h : a.st.setDense k v with
-  | some s' => exact abs_setDense a.st s' k v h j
-  | none => simp only; rw [(abs_insert a.st k (plain v) j).1, plain_sem]
+  | some s' =>
+    obtain ⟨n, hn, hk⟩ := setDense_lt a.st s' k v h
+    have hkl : k < a.len := by
+      by_cases hlt : k < a.len
+      · exact hlt
+      · obtain ⟨hd, _⟩ := dense_abs a.st n hn
+        obtain ⟨x, hx⟩ := hd k hk
+        rw [hwf.above k (by omega)] at hx; cases hx
+    simp only [hkl, decide_true, Bool.true_or, ↓reduceIte]
+    exact abs_setDense a.st s' k v h j
+  | none =>
+    simp only
+    by_cases hkl : k < a.len
+    · simp only [hkl, ↓reduceIte, decide_true, Bool.true_or]
+      rw [(abs_insert a.st k (plain v) j).1, plain_sem]
+    · cases hw : a.lenWritable with
+      | true =>
+        simp only [hkl, ↓reduceIte, decide_false, Bool.false_or]
+        rw [(abs_insert a.st k (plain v) j).1, plain_sem]
+      | false => simp [hkl]
 
 theorem jsGet_abs (a : JsArr) (k : Nat) : jsGet a k = (a.st.abs k).map (fun d => d.value) := by
   unfold jsGet
@@ -257,10 +299,12 @@ theorem jsGet_abs (a : JsArr) (k : Nat) : jsGet a k = (a.st.abs k).map (fun d =>
     unfold Indexed.abs
     cases a.st.get k <;> rfl
 
-/-- `shift` means the same on every storage: returned value and resulting contents are functions of the abstraction -/
+/-- `shift` means the same on every storage: returned value, whether it throws, resulting contents and length are
+    functions of the abstraction (contents, `length`, writability of `length`) alone -/
 theorem jsShift_abs (a : JsArr) (hwf : a.WF) (h1 : 1 ≤ a.len) :
-    (jsShift a).1 = (a.st.abs 0).map (fun d => d.value) ∧ (∀ j, (jsShift a).2.st.abs j = a.st.abs (j + 1)) ∧
-    (jsShift a).2.len = a.len - 1 := by
+    (jsShift a).1 = (a.st.abs 0).map (fun d => d.value) ∧ (jsShift a).2.1 = !a.lenWritable ∧
+    (∀ j, (jsShift a).2.2.st.abs j = a.st.abs (j + 1)) ∧
+    (jsShift a).2.2.len = (if a.lenWritable then a.len - 1 else a.len) ∧ (jsShift a).2.2.lenWritable = a.lenWritable := by
   unfold jsShift
   have hne : (a.len == 0) = false := by simp; omega
   simp only [hne, Bool.false_eq_true, ↓reduceIte]
@@ -269,27 +313,52 @@ theorem jsShift_abs (a : JsArr) (hwf : a.WF) (h1 : 1 ≤ a.len) :
     obtain ⟨v, s'⟩ := p
     obtain ⟨h0, hs', _, _⟩ := abs_shiftDense a.st s' a.len v h
     simp only
-    exact ⟨by rw [h0]; rfl, hs', trivial⟩
+    exact ⟨by rw [h0]; rfl, trivial, hs', trivial, trivial⟩
   | none =>
     simp only
     obtain ⟨g1, g2⟩ := shiftGeneric_abs a.st a.len h1 hwf.plain hwf.above
-    exact ⟨g1, g2, trivial⟩
+    exact ⟨g1, trivial, g2, trivial, trivial⟩
 
-/-- STORAGE INDEPENDENCE at the JavaScript level: two arrays with the same observable contents (in any two storage
-    variants) give the same `a[k]`, and after `a[k] = v` or `a.shift()` still have the same observable contents -/
-theorem js_storage_independent (a b : JsArr) (hl : a.len = b.len) (h : ∀ j, a.st.abs j = b.st.abs j)
-    (ha : a.WF) (hb : b.WF) (k : Nat) (v : Val) :
+/-- a read-only `length` is honoured by BOTH paths of `shift` (the dense one included): it throws and `length` stays -/
+theorem jsShift_readonly_length (a : JsArr) (hw : a.lenWritable = false) :
+    (jsShift a).2.1 = true ∧ (jsShift a).2.2.len = a.len := by
+  unfold jsShift
+  by_cases h0 : (a.len == 0) = true
+  · simp [h0, hw]
+  · simp only [h0, Bool.false_eq_true, ↓reduceIte]
+    cases a.st.shiftDense a.len with
+    | some p => simp [hw]
+    | none => simp [hw]
+
+/-- STORAGE INDEPENDENCE at the JavaScript level: two arrays with the same observable state (contents in any two storage
+    variants, `length`, its writability) give the same `a[k]`, and after `a[k] = v`, `a.push(v)` or `a.shift()` still
+    have the same observable state, the same result and the same exception -/
+theorem js_storage_independent (a b : JsArr) (hl : a.len = b.len) (hw : a.lenWritable = b.lenWritable)
+    (h : ∀ j, a.st.abs j = b.st.abs j) (ha : a.WF) (hb : b.WF) (k : Nat) (v : Val) :
     jsGet a k = jsGet b k ∧ (∀ j, (jsSet a k v).st.abs j = (jsSet b k v).st.abs j) ∧
-    (1 ≤ a.len → (jsShift a).1 = (jsShift b).1 ∧ ∀ j, (jsShift a).2.st.abs j = (jsShift b).2.st.abs j) := by
-  refine ⟨by rw [jsGet_abs, jsGet_abs, h], fun j => by rw [jsSet_abs, jsSet_abs, h], fun h1 => ?_⟩
-  obtain ⟨a1, a2, _⟩ := jsShift_abs a ha h1
-  obtain ⟨b1, b2, _⟩ := jsShift_abs b hb (hl ▸ h1)
-  exact ⟨by rw [a1, b1, h], fun j => by rw [a2, b2, h]⟩
+    ((jsPush a v).1 = (jsPush b v).1 ∧ ∀ j, (jsPush a v).2.st.abs j = (jsPush b v).2.st.abs j) ∧
+    (1 ≤ a.len → (jsShift a).1 = (jsShift b).1 ∧ (jsShift a).2.1 = (jsShift b).2.1 ∧
+      (∀ j, (jsShift a).2.2.st.abs j = (jsShift b).2.2.st.abs j) ∧ (jsShift a).2.2.len = (jsShift b).2.2.len) := by
+  have hallow : jsSetAllowed a k = jsSetAllowed b k := by unfold jsSetAllowed; rw [hl, hw]
+  refine ⟨by rw [jsGet_abs, jsGet_abs, h], fun j => by rw [jsSet_abs a ha, jsSet_abs b hb, hallow, h], ?_, fun h1 => ?_⟩
+  · unfold jsPush
+    rw [hw]
+    cases b.lenWritable with
+    | true =>
+      simp only [↓reduceIte]
+      refine ⟨trivial, fun j => ?_⟩
+      rw [(abs_insert a.st a.len (plain v) j).1, (abs_insert b.st b.len (plain v) j).1, hl, h]
+    | false => exact ⟨rfl, fun j => h j⟩
+  · obtain ⟨a1, a2, a3, a4, _⟩ := jsShift_abs a ha h1
+    obtain ⟨b1, b2, b3, b4, _⟩ := jsShift_abs b hb (hl ▸ h1)
+    exact ⟨by rw [a1, b1, h], by rw [a2, b2, hw], fun j => by rw [a3, b3, h], by rw [a4, b4, hw, hl]⟩
 
--- non-vacuity: [1, 2, 3] in the three dense variants
+
+-- non-vacuity: [1, 2, 3] in the dense variants; a read-only length
 example : (Indexed.denseI32 [1, 2, 3]).shiftDense 3 = some (.i32 1, .denseI32 [2, 3]) := rfl
 example : ((Indexed.denseI32 [1, 2, 3]).shiftGeneric 3).1 = some (.num (.int 1)) := by decide
 example : ∀ j, j < 5 → ((Indexed.denseI32 [1, 2, 3]).shiftGeneric 3).2.abs j = (Indexed.denseI32 [2, 3]).abs j := by decide
 example : (Indexed.denseI32 [1, 2, 3]).setDense 1 (.f64 (.dbl 7)) = some (.denseF64 [.int 1, .dbl 7, .int 3]) := rfl
+example : (jsShift { st := .denseI32 [1, 2, 3], len := 3, lenWritable := false }).2.1 = true := by decide
 
 end BoaVerif.C14
